@@ -18,11 +18,13 @@ from sexp import Sym
 
 from props import _dfrows_util as U
 
+U.warm()
+
 PROP = "C46"
 READY = True
 DRIVER = "dm_dfrows"
 LEAN_MODULES = ["DaskModel.Props.C46"]
-CASE_TIMEOUT_S = 20
+CASE_TIMEOUT_S = 60
 LEVEL_TEXT = (
     "Proved in Lean for all inputs: (1) cum_eq_pandas — the lowered Series cumsum/cumprod/cummax/cummin "
     "(CumulativeBlockwise + TakeLast + CumulativeFinalize with the cum*_aggregate None/NaN rules, as repaired by the "
